@@ -11,6 +11,7 @@ import (
 	"encoding/json"
 	"fmt"
 	"math/bits"
+	"os"
 	"strings"
 	"testing"
 	"time"
@@ -37,10 +38,19 @@ type c11Grid struct {
 	Size  int64  `json:"dgram"`
 	RTTns int64  `json:"rtt_ns"`
 	Comp  bool   `json:"loss_compensation"`
+	// Debug: the sender is created while the environment option HYSTERIA_BRUTAL_DEBUG=true (part
+	// debug-on). Not a grid axis of the other parts: they keep the option unset.
+	// Added after the independently seeded change C11-13 (in debug mode the factor was assigned only
+	// when the rate-limited debug line was due, so it stayed stale for up to 2 s).
+	Debug bool `json:"brutal_debug_env,omitempty"`
 }
 
 func (g c11Grid) String() string {
-	return fmt.Sprintf("rate=%d,dgram=%d,rtt=%s,comp=%v", g.Rate, g.Size, time.Duration(g.RTTns), g.Comp)
+	s := fmt.Sprintf("rate=%d,dgram=%d,rtt=%s,comp=%v", g.Rate, g.Size, time.Duration(g.RTTns), g.Comp)
+	if g.Debug {
+		s += ",HYSTERIA_BRUTAL_DEBUG=true"
+	}
+	return s
 }
 
 // ---------------------------------------------------------------------------------------------
@@ -168,6 +178,16 @@ var (
 	// the slot holding that second's samples)
 	c11AlphaLate = []c11Action{c11Send1, c11Sleep, c11Idle1, c11NextSec, c11Ack50_0, c11Ack40_10,
 		c11AckLate2ms50_0, c11AckLate2ms40_10, c11AckLate1s50_0, c11AckLate1s40_10}
+	// the neighbouring diagnostics option HYSTERIA_BRUTAL_DEBUG=true (part debug-on): the property does
+	// not mention it, so every clause holds with it as without it. The debug line is limited to one per
+	// debugPrintInterval = 2 s of event time: batches whose correct factors differ (1 / between / 0.8,
+	// by one batch or by accumulation) arrive in the same second, one second (nextsec: 1 ms; idle1s)
+	// and 2 s = the interval itself (idle1s idle1s) or 10 s apart; the sends show the factor in the
+	// pacing rate and the window.
+	// (added after the independently seeded change C11-13: in debug mode the new factor was dropped
+	// whenever the debug line was not yet due)
+	c11AlphaDebug = []c11Action{c11Send1, c11Burst, c11Sleep, c11Idle1, c11Idle10, c11NextSec,
+		c11Ack50_0, c11Ack40_10, c11Ack10_40, c11Ack10_30, c11Ack40_0}
 )
 
 // ---------------------------------------------------------------------------------------------
@@ -249,8 +269,13 @@ func c11CeilDiv(a, b uint64) uint64 { return (a + b - 1) / b }
 
 func c11NewSim(g c11Grid) *c11Sim {
 	s := &c11Sim{g: g, rtt: &c11RTTStats{srtt: time.Duration(g.RTTns)}}
-	s.bs = NewBrutalSender(g.Rate, !g.Comp)
-	s.bs.debug = false // HYSTERIA_BRUTAL_DEBUG must not matter (debugPrint reads the wall clock)
+	if g.Debug {
+		// the option is read once, when the sender is created (bin/vcheck runs the shards with it unset)
+		s.bs = c11NewDebugSender(g.Rate, !g.Comp)
+	} else {
+		s.bs = NewBrutalSender(g.Rate, !g.Comp)
+		s.bs.debug = false // HYSTERIA_BRUTAL_DEBUG must not matter (debugPrint reads the wall clock)
+	}
 	s.bs.SetRTTStatsProvider(s.rtt)
 	s.bs.SetMaxDatagramSize(congestion.ByteCount(g.Size))
 	s.size = congestion.ByteCount(g.Size)
@@ -267,6 +292,24 @@ func c11NewSim(g c11Grid) *c11Sim {
 	}
 	s.maxBurst = mb
 	return s
+}
+
+// c11NewDebugSender creates the sender the way a process started with HYSTERIA_BRUTAL_DEBUG=true does:
+// the variable is set around NewBrutalSender only and put back. The debug lines of such a sender go
+// to os.Stdout (with a wall-clock time of day in them, which nothing here reads); c11RunPart points
+// os.Stdout at the null device while the part runs so that the shard's captured output stays small.
+// Added after the independently seeded change C11-13 (see c11AlphaDebug).
+func c11NewDebugSender(bps uint64, disableLossCompensation bool) *BrutalSender {
+	old, had := os.LookupEnv(debugEnv)
+	os.Setenv(debugEnv, "true")
+	defer func() {
+		if had {
+			os.Setenv(debugEnv, old)
+		} else {
+			os.Unsetenv(debugEnv)
+		}
+	}()
+	return NewBrutalSender(bps, disableLossCompensation)
 }
 
 // setSize: the reference constants that depend on the datagram size.
@@ -765,6 +808,7 @@ type c11PartCfg struct {
 	alpha []c11Action
 	depth int
 	two   bool // a second sender of another rate/size/compensation setting is stepped after every step
+	debug bool // the senders are created while HYSTERIA_BRUTAL_DEBUG=true (added after the seeded change C11-13)
 }
 
 func c11Depths(thorough bool) (seq, drain, small int) {
@@ -779,91 +823,113 @@ func c11Enumerate(sh *evidence.Shard) {
 	dSeq, dDrain, dSmall := c11Depths(env.Thorough())
 	parts := []c11PartCfg{
 		// (the small targeted parts first: on a loaded machine the deadline then cuts the big one)
-		{"two-senders", c11AlphaSeq, dDrain, true},
-		{"probe", c11AlphaProbe, dDrain + 1, false},
+		{"two-senders", c11AlphaSeq, dDrain, true, false},
+		{"probe", c11AlphaProbe, dDrain + 1, false, false},
 		// added after the independently seeded change C11-8 (see c11AlphaSmall)
-		{"small-batches", c11AlphaSmall, dSmall, false},
+		{"small-batches", c11AlphaSmall, dSmall, false, false},
 		// added after the independently seeded change C11-9 (see c11AlphaAckOnly)
-		{"ack-only", c11AlphaAckOnly, dDrain, false},
+		{"ack-only", c11AlphaAckOnly, dDrain, false, false},
 		// added after the independently seeded change C11-10 (see c11AlphaLate)
-		{"late-acks", c11AlphaLate, dDrain + 1, false},
-		{"drain", c11AlphaDrain, dDrain, false},
-		{"seq", c11AlphaSeq, dSeq, false},
+		{"late-acks", c11AlphaLate, dDrain + 1, false, false},
+		// added after the independently seeded change C11-13 (see c11AlphaDebug)
+		{"debug-on", c11AlphaDebug, dDrain, false, true},
+		{"drain", c11AlphaDrain, dDrain, false, false},
+		{"seq", c11AlphaSeq, dSeq, false, false},
 	}
 	for _, pc := range parts {
-		p := sh.Part(pc.name, "enum")
-		names := c11SeqNames(pc.alpha)
-		alpha := map[string]any{
-			"rate_Bps": c11Rates, "datagram": c11Sizes, "smoothed_rtt": []string{"0(none)", "1ms", "50ms", "300ms"}, "loss_compensation": []string{"on", "off"},
-			"actions":          names,
-			"action_semantics": "send1: one datagram if CanSend&&HasPacingBudget(now); burst16/drain: datagrams while allowed at one instant (cap 16 / none); pace16: 16 x (sleep until announced, then one datagram if allowed); sleep: now=TimeUntilSend() if later; sleep+1ns: one ns late; idle1s/idle10s; nextsec: next whole-second boundary; ack(n,m): OnCongestionEventEx with n acked, m lost (in flight reduced by n+m datagrams)",
-			"clock_start_ns":   c11Start,
+		c11RunPart(sh, pc)
+	}
+}
+
+func c11RunPart(sh *evidence.Shard, pc c11PartCfg) {
+	env := sh.Env()
+	if pc.debug {
+		// the debug lines of the senders of this part (one per 2 s of event time on every path of the
+		// search) are not evidence: keep them out of the shard's captured output
+		if null, err := os.OpenFile(os.DevNull, os.O_WRONLY, 0); err == nil {
+			stdout := os.Stdout
+			os.Stdout = null
+			defer func() { os.Stdout = stdout; null.Close() }()
 		}
-		if pc.name == "small-batches" {
-			alpha["batch_histories"] = "ack/loss batches of 1..40 samples: the 50-sample threshold is crossed by accumulation over several batches (losses first then ACK-only batches, and every other order), within and across the five-second window; the factor is compared with the reference after every batch"
-		}
-		if pc.name == "ack-only" {
-			alpha["is_retransmittable"] = "OnPacketSent's last argument (quic-go: isAckEliciting) is false for send1-ackonly and for every other datagram (the first, third, ...) of burst16-mixed / drain-mixed / pace16-mixed, true elsewhere; a datagram with the flag false is released under the same condition (CanSend&&HasPacingBudget), does not count into the bytes in flight, and counts in full in the rate bound"
-		}
-		if pc.name == "late-acks" {
-			alpha["event_time"] = "ack(n,m) is stamped with the handling time (quic-go: loss-timer batches get now); ack(n,m)@rcv-2ms / @rcv-1s are handled now and stamped 2ms / 1s earlier (quic-go: ACK-frame batches get the datagram's receive time), so the event times are NOT monotone and step back over a whole-second boundary (2ms: only right after one; 1s: always); the reference counts a sample in the second it was stamped with and takes the last 4/5/6 seconds from the handling time"
-		}
-		p.Alphabet = alpha
-		p.Bounds = map[string]any{"max_sequence_length": pc.depth, "grid_points": len(c11Rates) * len(c11Sizes) * len(c11RTTs) * len(c11Comp),
-			"gap_restriction": "a time advance is not taken when ceil(rate/0.8) x (new now - last send) >= 2^63"}
-		classes := map[uint64]struct{}{}
-		var gi int64
-		done, total := 0, 0
-		stop := false
-		enum.Product([]int{len(c11Rates), len(c11Sizes), len(c11RTTs), len(c11Comp)}, func(ix []int) bool {
-			gi++
-			// diagonal striding: a plain gi%nshards would give a shard the same (rtt, compensation) every time
-			if !env.Mine(gi + gi/int64(env.NShards)) {
-				return true
-			}
-			total++
-			if stop {
-				return true
-			}
-			if env.Expired() {
-				stop = true
-				return true
-			}
-			g := c11Grid{Rate: c11Rates[ix[0]], Size: c11Sizes[ix[1]], RTTns: int64(c11RTTs[ix[2]]), Comp: c11Comp[ix[3]]}
-			q := &c11Search{sim: c11NewSim(g), alpha: pc.alpha, expired: env.Expired, classes: classes, gi: int(gi)}
-			var by *c11Grid
-			if pc.two {
-				by = &c11Grid{Rate: c11Rates[(ix[0]+1)%len(c11Rates)], Size: c11Sizes[(ix[1]+1)%len(c11Sizes)], RTTns: int64(c11RTTs[ix[2]]), Comp: !c11Comp[ix[3]]}
-				q.sim.by = c11NewSim(*by)
-			}
-			q.run(pc.depth)
-			p.Evaluations += q.steps
-			p.Count("sequences", q.seqs)
-			p.Count("steps_without_effect_cut", q.noops)
-			p.Count("steps_outside_gap_range", q.disabled)
-			p.Count("datagrams_sent", q.sim.packets)
-			if q.aborted {
-				stop = true
-			} else {
-				done++
-			}
-			if q.bestV != nil {
-				seq := c11SeqNames(q.best)
-				c := &c11Case{Part: pc.name, Grid: g, Seq: seq, Clause: q.bestV.Clause, By: by}
-				sh.Violate(pc.name, c11Sig(pc.name, g, q.bestV.Clause, seq), q.bestV.Detail, c)
-			}
-			if gi%97 == 5 {
-				p.Sample(map[string]any{"grid": g, "sequences": q.seqs, "steps": q.steps, "violation": q.bestV != nil})
-			}
+	}
+	p := sh.Part(pc.name, "enum")
+	names := c11SeqNames(pc.alpha)
+	alpha := map[string]any{
+		"rate_Bps": c11Rates, "datagram": c11Sizes, "smoothed_rtt": []string{"0(none)", "1ms", "50ms", "300ms"}, "loss_compensation": []string{"on", "off"},
+		"actions":          names,
+		"action_semantics": "send1: one datagram if CanSend&&HasPacingBudget(now); burst16/drain: datagrams while allowed at one instant (cap 16 / none); pace16: 16 x (sleep until announced, then one datagram if allowed); sleep: now=TimeUntilSend() if later; sleep+1ns: one ns late; idle1s/idle10s; nextsec: next whole-second boundary; ack(n,m): OnCongestionEventEx with n acked, m lost (in flight reduced by n+m datagrams)",
+		"clock_start_ns":   c11Start,
+	}
+	if pc.name == "small-batches" {
+		alpha["batch_histories"] = "ack/loss batches of 1..40 samples: the 50-sample threshold is crossed by accumulation over several batches (losses first then ACK-only batches, and every other order), within and across the five-second window; the factor is compared with the reference after every batch"
+	}
+	if pc.name == "ack-only" {
+		alpha["is_retransmittable"] = "OnPacketSent's last argument (quic-go: isAckEliciting) is false for send1-ackonly and for every other datagram (the first, third, ...) of burst16-mixed / drain-mixed / pace16-mixed, true elsewhere; a datagram with the flag false is released under the same condition (CanSend&&HasPacingBudget), does not count into the bytes in flight, and counts in full in the rate bound"
+	}
+	if pc.debug {
+		alpha["env HYSTERIA_BRUTAL_DEBUG while the sender is created"] = "true (every other part: unset). The sender then prints a line about the factor at most once per 2 s of event time; batches with different correct factors arrive 0 s, 1 ms, 1 s, 2 s, 10 s apart; the factor is compared with the same reference after every batch, and the rate, window and wake-up clauses are checked as everywhere"
+	}
+	if pc.name == "late-acks" {
+		alpha["event_time"] = "ack(n,m) is stamped with the handling time (quic-go: loss-timer batches get now); ack(n,m)@rcv-2ms / @rcv-1s are handled now and stamped 2ms / 1s earlier (quic-go: ACK-frame batches get the datagram's receive time), so the event times are NOT monotone and step back over a whole-second boundary (2ms: only right after one; 1s: always); the reference counts a sample in the second it was stamped with and takes the last 4/5/6 seconds from the handling time"
+	}
+	p.Alphabet = alpha
+	p.Bounds = map[string]any{"max_sequence_length": pc.depth, "grid_points": len(c11Rates) * len(c11Sizes) * len(c11RTTs) * len(c11Comp),
+		"gap_restriction": "a time advance is not taken when ceil(rate/0.8) x (new now - last send) >= 2^63"}
+	classes := map[uint64]struct{}{}
+	var gi int64
+	done, total := 0, 0
+	stop := false
+	enum.Product([]int{len(c11Rates), len(c11Sizes), len(c11RTTs), len(c11Comp)}, func(ix []int) bool {
+		gi++
+		// diagonal striding: a plain gi%nshards would give a shard the same (rtt, compensation) every time
+		if !env.Mine(gi + gi/int64(env.NShards)) {
 			return true
-		})
-		for k := range classes {
-			p.ClassHash(k)
 		}
+		total++
 		if stop {
-			p.Exhaustive = false
-			p.Note("deadline: %d of this shard's %d grid points searched completely to length %d", done, total, pc.depth)
+			return true
 		}
+		if env.Expired() {
+			stop = true
+			return true
+		}
+		g := c11Grid{Rate: c11Rates[ix[0]], Size: c11Sizes[ix[1]], RTTns: int64(c11RTTs[ix[2]]), Comp: c11Comp[ix[3]], Debug: pc.debug}
+		q := &c11Search{sim: c11NewSim(g), alpha: pc.alpha, expired: env.Expired, classes: classes, gi: int(gi)}
+		var by *c11Grid
+		if pc.two {
+			by = &c11Grid{Rate: c11Rates[(ix[0]+1)%len(c11Rates)], Size: c11Sizes[(ix[1]+1)%len(c11Sizes)], RTTns: int64(c11RTTs[ix[2]]), Comp: !c11Comp[ix[3]]}
+			q.sim.by = c11NewSim(*by)
+		}
+		q.run(pc.depth)
+		p.Evaluations += q.steps
+		p.Count("sequences", q.seqs)
+		p.Count("steps_without_effect_cut", q.noops)
+		p.Count("steps_outside_gap_range", q.disabled)
+		p.Count("datagrams_sent", q.sim.packets)
+		if q.aborted {
+			stop = true
+		} else {
+			done++
+		}
+		if q.bestV != nil {
+			seq := c11SeqNames(q.best)
+			c := &c11Case{Part: pc.name, Grid: g, Seq: seq, Clause: q.bestV.Clause, By: by}
+			sh.Violate(pc.name, c11Sig(pc.name, g, q.bestV.Clause, seq), q.bestV.Detail, c)
+		}
+		if pc.debug && q.sim.bs.debug {
+			p.Count("senders_in_debug_mode", 1)
+		}
+		if gi%97 == 5 {
+			p.Sample(map[string]any{"grid": g, "sequences": q.seqs, "steps": q.steps, "violation": q.bestV != nil})
+		}
+		return true
+	})
+	for k := range classes {
+		p.ClassHash(k)
+	}
+	if stop {
+		p.Exhaustive = false
+		p.Note("deadline: %d of this shard's %d grid points searched completely to length %d", done, total, pc.depth)
 	}
 }
 
@@ -871,7 +937,7 @@ func TestVerifC11(t *testing.T) {
 	evidence.Main(t, "C11", evidence.Seq{
 		Run: c11Enumerate,
 		Replay: func(part string, raw json.RawMessage) (bool, bool, string) {
-			if part != "seq" && part != "drain" && part != "probe" && part != "small-batches" && part != "ack-only" && part != "late-acks" {
+			if part != "seq" && part != "drain" && part != "probe" && part != "small-batches" && part != "ack-only" && part != "late-acks" && part != "debug-on" {
 				return false, false, ""
 			}
 			var c c11Case
